@@ -7,7 +7,8 @@ OWNERS = {
     'C02': ['c02'],
     'C03': ['c03'],
     'C04': ['c04'],
-    'C05': ['coherence', '*.incoherent', '*.refused_changed', 'accessor', 'reader', 'summary.sum',
+    'C05': ['coherence', '*.incoherent', '*.refused_changed', '*.f6',
+            'accessor', 'reader', 'summary.sum',
             'summary.nnz',
             'summary.density', 'read.data', 'read.value', 'read.getslice',
             'read.iter', 'read.iter_data', 'read.pairwise', 'read.nonzero',
@@ -16,7 +17,8 @@ OWNERS = {
             'perturb.sortinv', 'perturb.tt', 'perturb.copy'],
     'C07': ['bystander', 'noninplace', 'inplace', 'newtable',
             '*.refused_changed', '*.receiver_changed', '*.input_changed',
-            '*.source_changed', 'perturb.copy'],
+            '*.source_changed', '*.returned_self', '*.inplace_returns_other',
+            '*.returned_input', 'perturb.copy'],
     'C08': ['filter', 'remove_empty', 'head', 'perturb.filterall'],
     'C09': ['merge'],
     'C10': ['concat'],
@@ -31,7 +33,7 @@ OWNERS = {
     'C19': ['summary', 'export', 'c19', 'read.minmax', 'read.nonzero_counts',
             'read.reduce', 'read.stats', 'read.dataframe',
             'read.md_dataframe', 'read.sum', 'read.nnz', 'read.density'],
-    'C20': ['errprofile', 'c20'],
+    'C20': ['errprofile', 'c20', '*.f6'],
 }
 
 
@@ -70,7 +72,7 @@ PROFILES = {
     'C07': {
         'name': 'C07', 'ops': {o: 1.0 for o in ALL_OPS},
         'pools': [4, 6, 6, 6], 'kinds': {'op': 12, 'read': 3, 'perturb': 3},
-        'faults': ['none', 'F1', 'F1', 'all'],
+        'faults': ['none', 'F1', 'F1', 'F6', 'all'],
     },
     'C08': {
         'name': 'C08',
@@ -79,7 +81,7 @@ PROFILES = {
         'perturb': _w(['sortinv', 'rebuild', 'fulldepth', 'flip',
                        'filterall'], 2.0, ALL_PERTURB, 0.5),
         'kinds': {'op': 10, 'perturb': 5, 'read': 2},
-        'faults': ['none', 'none', 'F1', 'F2', 'all'],
+        'faults': ['none', 'none', 'F1', 'F2', 'F6', 'all'],
     },
     'C09': {
         'name': 'C09', 'ops': _w(['merge'], 6.0),
